@@ -4,6 +4,11 @@ manifest is valid at every commit)."""
 import json, os, sys
 
 CHECKS = {
+ "C19": ("exploration",
+         "complete enumeration of the colour space and of a configuration grid through the real parser against a reference acceptance predicate; start-up probes of every accepted single and pairwise configuration",
+         "All 16^6 (quick) / 22^6 (thorough) six-digit colours and all 21.4 million strings of length <=7 over an 11-symbol alphabet through the real converter; the full product hook(7) x cache_size(7) x preload_amount(8) x timeout_seconds(8) x feeds(5), the four colours (6^4) and unknown keys, tables and a syntax error pairwise with every key through the real parser: reject / accept exactly as the reference says, accepted colours are decimal triples 0..255; every accepted configuration with at most two keys set starts a probe process (this binary under XDG_CONFIG_HOME) driving the real UI: rejected with a diagnostic or runs to PROBE-OK.",
+         "Trusted: the reference acceptance predicate and the probe script in checks/c19; well-typed but out-of-range values may be rejected or accepted (only accepted-and-crashing counts); the probe exercises open, move, select, links, media, history, creators, feed and resize over the in-memory peer.",
+         "DESIGN.md §3 C19"),
  "C01": ("exploration",
          "bounded-exhaustive enumeration of control code points x encodings x carriers x sinks x widths against a terminal-safety oracle",
          "8 structurally distinct control characters (quick) / all 64 C0, DEL and C1 code points except newline (thorough), each followed by a tell-tale SGR parameter servitor never emits, in 7 encodings inside 32 markup carriers of the four media types, in every string field of actors, posts, activities and their nested links, authors and collections (as string, list, object, key, entity), at 13 positions of raw HTTP responses quoted in error items, and in UI frames (normal, selection, opening, problem, command footers); sinks Markup.Render, String, Preview, Name at widths 1,2,7,80,81: after removing exactly the SGR sequences servitor generates no control character other than newline remains.",
